@@ -8,6 +8,7 @@ CONSTANTS
   Tolerated <- NoneTolerated
   FnOut = FALSE
   Poller = FALSE
+  Aging = FALSE
   Gen = "last"
 CONSTRAINTS Mark NotYetAccepted
 POSTCONDITION Accepted
